@@ -50,7 +50,7 @@ def check_selection(ctx, d, costs, n, got, kind, meta):
 
 
 def run(ctx):
-    ctx.prove(["PvModel.Props.C16", "PvModel.Props.R16"])
+    ctx.prove(["PvModel.Props.C16", "PvModel.Props.R16", "PvModel.Props.R10"])
     run_suite(ctx)
 
 
@@ -216,6 +216,26 @@ def run_suite(ctx, only_best=False):
             C.add({"op": "sel.replaceTrim", "pop": pj, "new": nj, "n": ps}, tags(opt._population) if ok else rerr(r), {**meta, "op": "_replace_and_trim_population"})
             if ok and [a.cost for a in opt._population] != sorted(new)[:ps]:
                 ctx.fail("C16/_replace_and_trim_population/not-the-cheapest", f"{[a.cost for a in opt._population]}", SUITE, meta)
+        # challengers that are equal, field for field, to an incumbent or to each other (elites put back as copies, a solution found twice):
+        # they are agents like any other — the trimmed population is still the cheapest `population_size` of incumbents + challengers
+        if old and (len(old) <= 2 or rng.random() < 0.15):
+            for ps in sorted({len(old), len(old) + 1}):
+                opt = Scripted(BaseOptimizationConfig(population_size=ps, max_cycles=1))
+                opt._task = task
+                A = [make_agent(i, c) for i, c in enumerate(old)]
+                k = min(range(len(old)), key=lambda i: old[i])
+                B = [make_agent(100 + i, c) for i, c in enumerate(new)] + [A[k].model_copy(), A[k].model_copy(deep=True)]
+                if new:
+                    B.append(make_agent(100, new[0]))
+                opt._population = list(A)
+                ok, r = call(opt._extend_and_trim_population, list(B))
+                ctx.case(("extendTrim-equal-agents", tuple(old), tuple(new), ps), nontrivial=True, kind="_extend_and_trim_population:challengers-equal-to-incumbents")
+                exp = sorted(old + [b.cost for b in B])[:ps]
+                if not ok:
+                    ctx.fail("C16/_extend_and_trim_population/raises", repr(r), SUITE, {"old": repr(old), "new": repr(new), "ps": ps, "equal_agents": True})
+                elif [a.cost for a in opt._population] != exp:
+                    ctx.fail("C16/_extend_and_trim_population/not-the-cheapest", f"{[a.cost for a in opt._population]} expected {exp} (challengers include copies of the cheapest incumbent)", SUITE,
+                             {"old": repr(old), "new": repr(new), "ps": ps, "equal_agents": True})
         # _generate_group_population: slices + residual group (copies of the agents; the population itself untouched)
         for ng in (1, 2, 3):
             for na in sorted({1, 2, max(1, len(old) // ng)}):
